@@ -272,8 +272,15 @@ def misplaced_arguments(model, modules):
                     # otherwise (positionally or by keyword)
                     j = ps.index(t)
                     given = j < len(c.args) or any(k.arg == t for k in c.keywords)
-                    if not given or _terminal(c.args[j]) != t \
-                            if j < len(c.args) else not given:
+                    if j < len(c.args):
+                        # given positionally: a finding only when that slot
+                        # holds an argument named after yet another parameter
+                        # (crossed arguments), not a constant or other value
+                        tj = _terminal(c.args[j])
+                        bad = tj is not None and tj != t and tj in ps
+                    else:
+                        bad = not given
+                    if bad:
                         out.append((mi, c, tq, ps[i], t))
     return out
 
